@@ -277,7 +277,8 @@ where
         } else {
             *has_attr = true;
         }
-        write!(fmt, "@{}", name.as_ref())?;
+        fmt.write_str("@")?;
+        write_string_literal(name.as_ref(), fmt)?;
         let attr_printer = AttributePrinter::new(fmt, *strategy);
         value.write_with(attr_printer)?;
         Ok(self)
@@ -680,7 +681,8 @@ where
         } else {
             *has_attr = true;
         }
-        write!(fmt, "@{}", name.as_ref())?;
+        fmt.write_str("@")?;
+        write_string_literal(name.as_ref(), fmt)?;
         let attr_printer = AttributePrinter::new(fmt, *strategy);
         value.write_with(attr_printer)?;
         Ok(self)
